@@ -66,7 +66,10 @@ Inductive note :=
 | NMail (sender : bytes)                     (* MAIL FROM accepted *)
 | NRcpt (addr : bytes) (cls : rclass)        (* RCPT TO accepted *)
 | NWithdraw                                  (* second recipient of a bounce: all recipients accepted so far are withdrawn *)
-| NData (k : nat).                           (* DATA accepted: 354 sent, k-th qmail-queue invocation runs *)
+| NData (k : nat)                            (* DATA accepted: 354 sent, k-th qmail-queue invocation runs *)
+| NBad                                       (* check_max_bad_commands() counted one more bad command *)
+| NBadReset                                  (* the bad command counter was set to 0 *)
+| NBadClose.                                 (* check_max_bad_commands() ends the connection *)
 
 Inductive event :=
 | Reply (code : N)
@@ -135,8 +138,8 @@ Fixpoint wait_for_quit (fuel : nat) (s : sstate) : list event :=
           (* linein is stale after a read error; the harness never sends QUIT in that situation *)
           let isquit := match it with Line l => strncaseeq [81; 85; 73; 84]%N l && Nat.eqb (length l) 4 | _ => false end in
           if isquit then [Reply 221; Closed]
-          else if Nat.ltb MAXBADCMDS (badcmds s) then [Reply 550; Closed]
-          else Reply 503 :: wait_for_quit f (set_badcmds s (S (badcmds s)))
+          else if Nat.ltb MAXBADCMDS (badcmds s) then [Note NBadClose; Reply 550; Closed]
+          else Note NBad :: Reply 503 :: wait_for_quit f (set_badcmds s (S (badcmds s)))
       end
   end.
 
@@ -424,17 +427,17 @@ Fixpoint find_cmd (tbl : list (list N * N * nat * Z * N)) (i : nat) (line : byte
 
 (** the error branch of smtploop for a non-zero flagbogus *)
 Definition on_error (s : sstate) (h : hres) : list event * option sstate :=
-  if Nat.ltb MAXBADCMDS (badcmds s) then ([Reply 550; Closed], None)
+  if Nat.ltb MAXBADCMDS (badcmds s) then ([Note NBadClose; Reply 550; Closed], None)
   else
     let s := set_badcmds s (S (badcmds s)) in
     match h with
-    | HEINVAL | HE2BIG => ([Reply 500], Some (tarpit s))
-    | HENOEXEC => ([Reply 501], Some (tarpit s))
-    | HSEQ => ([Reply 503], Some (tarpit s))
-    | HEDONE => ([], Some (set_badcmds s 0))
-    | HEMSGSIZE => ([Reply 552], Some (set_badcmds s 0))
-    | HUNKNOWN => ([Reply 500], Some (set_badcmds s 0))   (* default branch: "500 5.3.0 unknown error" *)
-    | HEBOGUS => ([], Some s)
+    | HEINVAL | HE2BIG => ([Note NBad; Reply 500], Some (tarpit s))
+    | HENOEXEC => ([Note NBad; Reply 501], Some (tarpit s))
+    | HSEQ => ([Note NBad; Reply 503], Some (tarpit s))
+    | HEDONE => ([Note NBad; Note NBadReset], Some (set_badcmds s 0))
+    | HEMSGSIZE => ([Note NBad; Note NBadReset; Reply 552], Some (set_badcmds s 0))
+    | HUNKNOWN => ([Note NBad; Note NBadReset; Reply 500], Some (set_badcmds s 0))   (* default branch: "500 5.3.0 unknown error" *)
+    | HEBOGUS => ([Note NBad], Some s)
     | H0 | HEXIT => ([], Some s)
     end.
 
@@ -529,7 +532,7 @@ Definition step (f : nat) (o : oracles) (s : sstate) : list event * option sstat
       let '(evs, h, s1) := dispatch f o s l in
       match h with
       | HEXIT => (evs, None)
-      | H0 => (evs, Some s1)
+      | H0 => (evs ++ [Note NBadReset], Some s1)        (* badcmds = 0 *)
       | _ => let '(ev, so) := on_error s1 h in (evs ++ ev, so)
       end
   end.
